@@ -50,23 +50,28 @@ Definition nz_transform (t : ts) (r : box) : option box :=
 (* what calculate_bounding_boxes reads from a child *)
 Record leafboxes := { lb_obj : box; lb_abs : box; lb_stroke : box; lb_abs_stroke : box }.
 Record gboxes := { gb_obj : box; gb_abs : box; gb_stroke : box; gb_abs_stroke : box; gb_layer : box; gb_abs_layer : box }.
-Inductive child := CLeaf (b : leafboxes) | CGroup (t : ts) (b : gboxes).
+(* CEmptyGroup: a child group without children and without filters - skipped by both loops since ab43936 *)
+Inductive child := CLeaf (b : leafboxes) | CGroup (t : ts) (b : gboxes) | CEmptyGroup.
+Definition is_live (c : child) : bool := match c with CEmptyGroup => false | _ => true end.
+Definition live (cs : list child) : list child := filter is_live cs.
+Definition zero_box : box := {| bx0 := 0; by0 := 0; bx1 := 0; by1 := 0 |}.
 
 Definition or_self (o : option box) (r : box) : box := match o with Some x => x | None => r end.
 (* the child's contributions, in the parent's coordinate system *)
 Definition c_obj (c : child) : box :=
-  match c with CLeaf b => lb_obj b | CGroup t b => or_self (rect_transform t (gb_obj b)) (gb_obj b) end.
-Definition c_abs (c : child) : box := match c with CLeaf b => lb_abs b | CGroup _ b => gb_abs b end.
+  match c with CLeaf b => lb_obj b | CGroup t b => or_self (rect_transform t (gb_obj b)) (gb_obj b) | CEmptyGroup => zero_box end.
+Definition c_abs (c : child) : box := match c with CLeaf b => lb_abs b | CGroup _ b => gb_abs b | CEmptyGroup => zero_box end.
 Definition c_stroke (c : child) : box :=
-  match c with CLeaf b => lb_stroke b | CGroup t b => or_self (rect_transform t (gb_stroke b)) (gb_stroke b) end.
-Definition c_abs_stroke (c : child) : box := match c with CLeaf b => lb_abs_stroke b | CGroup _ b => gb_abs_stroke b end.
+  match c with CLeaf b => lb_stroke b | CGroup t b => or_self (rect_transform t (gb_stroke b)) (gb_stroke b) | CEmptyGroup => zero_box end.
+Definition c_abs_stroke (c : child) : box := match c with CLeaf b => lb_abs_stroke b | CGroup _ b => gb_abs_stroke b | CEmptyGroup => zero_box end.
 (* a group child whose layer box does not survive its transform contributes nothing *)
 Definition c_layer (c : child) : option box :=
-  match c with CLeaf b => Some (lb_stroke b) | CGroup t b => nz_transform t (gb_layer b) end.
+  match c with CLeaf b => Some (lb_stroke b) | CGroup t b => nz_transform t (gb_layer b) | CEmptyGroup => None end.
 
-Definition union_of (f : child -> box) (cs : list child) : acc := fold_left (fun a c => expand a (f c)) cs None.
+(* both loops `continue` on empty groups: the unions run over the live children *)
+Definition union_of (f : child -> box) (cs : list child) : acc := fold_left (fun a c => expand a (f c)) (live cs) None.
 Definition union_opt (f : child -> option box) (cs : list child) : acc :=
-  fold_left (fun a c => match f c with Some r => expand a r | None => a end) cs None.
+  fold_left (fun a c => match f c with Some r => expand a r | None => a end) (live cs) None.
 
 (* Group::calculate_object_bbox *)
 Definition calculate_object_bbox (cs : list child) : option box := to_nonzero (union_of c_obj cs).
@@ -173,8 +178,10 @@ Fixpoint product_ok (pabs : ts) (n : anode) : bool :=
   | ALeaf a => ts_eqb a pabs
   | AGroup t a ch => ts_eqb a (ts_concat pabs t) && forallb (product_ok a) ch
   end.
-(* KNOWN class use_transform_twice: a group made for `use` / nested `svg` whose element carries its own
-   `transform` attribute (GK_ViaUse with a non-identity node transform, GK_ClipWrap with a non-identity passed one) *)
+(* KNOWN class use_transform_twice: a group made by use_node::convert for a `use` / `symbol` element that carries its own
+   `transform` attribute (GK_ViaUse with a non-identity node transform, GK_ClipWrap with a non-identity passed one).
+   Nested `svg` elements left the class with fb5447a: convert_svg passes the identity to clip_element and builds the
+   viewport group with abs = parent abs * transform (GK_Plain). *)
 Fixpoint has_use_ts (n : tnode) : bool :=
   match n with
   | TLeaf => false
@@ -218,4 +225,4 @@ Definition chk_contains (filters : list box) (cs : list child) (g : gboxes) : bo
                     match filters_bounding_box filters, c_layer c with
                     | None, Some l => containsb (gb_layer g) l
                     | _, _ => true
-                    end) cs.
+                    end) (live cs).
